@@ -26,6 +26,8 @@ CHECKS = {
          "Not yet proved: that the result equals the documented translation table (properties = encoding/json field set, required, null for pointers, integer bounds) and determinism; termination for recursive types; CloneSchemas' own body (reflection) is used through its assumed contract fresh(result). " + BASE),
  "C18": ("Read-frame proof for the evaluator: every access to a field of Schema inside (*state).validate and in every closure nested in it (121 accesses) is an obligation stating that the field is not one of the non-asserting keywords (title, description, $comment, default, examples, deprecated, readOnly, writeOnly, format, contentEncoding, contentMediaType, contentSchema, $defs, definitions, Extra, PropertyOrder, $vocabulary); so the verdict cannot depend on them.",
          "Covers the evaluator's reads only. Helper functions reached from validate take no *Schema except through validate's own recursion. Not covered: that Resolve's result is unaffected by such keywords (an ill-formed unreferenced $defs entry does change Resolve's outcome), and Unmarshal's treatment of unknown keys (case-insensitive matching inherited from encoding/json is a known pre-finding, not yet under contract). " + BASE),
+ "C12": ("Proved: (a) hashValue's scalar arms: for every non-wrapper JSON-shaped value whose JSON view is a number, string, boolean or null, the sequence written to the hash equals feedJ(previous stream, jv(v)), a function of the JSON view only — so 1, 1.0, uint8(1) and json.Number(\"1\") feed identical bytes (sign word, numerator and denominator magnitudes of the normalised rational), independent of representation and of the seed; (b) enum: the loop leaves early only at an index whose value is Equal to the instance and otherwise has compared every listed value (invariant + exit clauses), and the enum error is returned only if no listed value is Equal; (c) const: the error is returned only if the constant is not Equal; (d) uniqueItems: the error is returned only for two distinct positions j<i whose elements are Equal.",
+         "Equal appears in these contracts as a mathematical function eqv(x,y) (the property is stated relative to Equal); equalValue's postcondition result == eqv(x,y) is on the trusted list (determinism of a function proved pure). Not proved: the hash law for arrays and objects (sorted keys, length prefixes), that uniqueItems accepts only when all pairs are unequal (needs the hash law plus bucket completeness), and the acceptance direction of enum/const beyond the loop exit clauses. A rewritten number fast path that slices a local array at an offset is outside the modelled subset and is reported as undecided-violation. " + BASE),
  "C13": ("Deductive proof, for every function on the Validate call path, that every heap store targets an object allocated during the current API call (obligation modifies@<component> at every Store/MapUpdate/append-target/callee frame), i.e. Validate never writes the Resolved, its side tables, the schema tree or process-wide state. This is the no-shared-mutable-state condition the property's mechanism names.",
          "Contracts have no thread semantics: schedules are not explored; the step from 'no write to pre-existing objects' to race freedom and sequential equivalence is the Go memory model's DRF-SC argument, cited not proved. Coverage: Validate call graph only (For, Marshal, CloneSchemas, Resolve, ApplyDefaults not yet). reflect.Set*/sync.Map effects are outside the heap model. " + BASE),
  "C14": ("Deductive proof that Validate and everything it calls never write an object that existed before the call (schema tree, Resolved side tables, anything reachable from the instance through Go pointers): one modifies@ obligation per heap store, all discharged; map-range loops are verified with 'any unvisited key next', so the facts hold for every iteration order.",
@@ -37,7 +39,6 @@ NA = {
  "C04": "not yet claimed: forType contract against the inference table under construction",
  "C05": "not yet claimed: per-field marshal/unmarshal table obligations under construction",
  "C09": "not yet claimed: depends on the forType contract (C04)",
- "C12": "not yet claimed: hashValue / uniqueItems contracts under construction",
  "C15": "not yet claimed: applyDefaults contract under construction",
  "C17": "not yet claimed: JSON pointer contracts under construction",
  "C19": "not yet claimed: orderedProperties contract under construction",
